@@ -414,6 +414,18 @@ pub fn seeds() -> Vec<(Program, bool)> {
     p.push(None, Stmt::Jsr(Target::Lit(Lit::dec(-1024))));
     p.push(None, Stmt::Mem(PcRel::St, 0, lbl("top")));
     v.push((p, false));
+    // 10: labels in front of `.break` and `.orig` (they name the next statement's address), a label
+    // after the last statement
+    let mut p = Program::default();
+    p.items.push(Item::LOrig("base".into(), Lit::hex(0x3200)));
+    p.push(None, Stmt::Mem(PcRel::Lea, 0, lbl("stop")));
+    p.items.push(Item::LBreak("stop".into()));
+    p.push(Some("again"), Stmt::Add(1, 1, Src2::Imm(Lit::dec(1))));
+    p.push(None, Stmt::Br(0b010, "brz".into(), lbl("base")));
+    p.push(None, Stmt::Mem(PcRel::Ld, 2, lbl("tail")));
+    p.push(None, Stmt::Named(0x25, "halt"));
+    p.items.push(Item::LBreak("tail".into()));
+    v.push((p, false));
     v
 }
 
